@@ -102,6 +102,11 @@ func Fetch(
 			return nil
 		}
 
+		// Files that have never been written to have no content on the tape, so there is nothing to decode
+		if _, encoded := hdr.PAXRecords[records.STFSRecordUncompressedSize]; !encoded && hdr.Size == 0 {
+			return dstFile.Close()
+		}
+
 		decryptor, err := encryption.Decrypt(tr, pipes.Encryption, crypto.Identity)
 		if err != nil {
 			return err
